@@ -408,7 +408,10 @@ def cmd_picmg_send_pm_heartbeat(ipmi, args):
 
 
 def cmd_picmg_send_channel_power(ipmi, args):
-    ipmi.send_channel_power(int(args[0]))
+    if len(args) < 3 or args[1] not in ('on', 'off'):
+        print('usage: picmg channel power <channel> <on|off> <current limit>')
+        return
+    ipmi.send_channel_power(int(args[0]), args[1] == 'on', float(args[2]))
 
 
 def usage(toplevel=False):
